@@ -279,8 +279,9 @@ impl Server {
     fn set_file_content(&mut self, uri: &Url, text: &str) {
         let path = UrlExt::to_file_path(uri);
         let mut vfs = self.vfs.write().unwrap();
-        let file_id = vfs.assign_or_get_file_id(path);
-        let text = Arc::from(text);
+        let file_id = vfs.assign_or_get_file_id(path.clone());
+        let text: Arc<str> = Arc::from(text);
+        vfs.set_open_file_content(path, Arc::clone(&text));
         self.host.set_file_content(file_id, text);
         self.host.set_root_file(&mut *vfs, file_id);
     }
